@@ -273,6 +273,7 @@ def vLeafOnly : VNode → Bool
   | .elem .. => false
   | .island .. => false
   | .islandChildren _ => false
+  | .resetPos => false
   | .seq ks => vLeafOnlyKids ks
   | .vec ks => vLeafOnlyKids ks
   | _ => true
@@ -295,6 +296,7 @@ def vShapeNode (anc : List Str) : VNode → Bool
   | .unit => true
   | .island c _ ks => compOK c && vShapeKids (tIsland :: anc) ks     -- the component name is program text
   | .islandChildren ks => vShapeKids (tIslandChildren :: anc) ks
+  | .resetPos => false
 def vShapeKids (anc : List Str) : List VNode → Bool
   | [] => true
   | n :: ns => vShapeNode anc n && vShapeKids anc ns
@@ -304,13 +306,14 @@ mutual
 /-- no NUL/CR in any string; primitives additionally without `<` and `&` (only a `char` can have one) -/
 def vCleanNode : VNode → Bool
   | .text s => clean s
-  | .prim s => titleInert s
+  | .prim s => titleInert s || (primEscaped && clean s)
   | .elem _ attrs kids => attrs.all attrValClean && vCleanKids kids
   | .seq ks => vCleanKids ks
   | .vec ks => vCleanKids ks
   | .unit => true
   | .island _ p ks => clean p && vCleanKids ks
   | .islandChildren ks => vCleanKids ks
+  | .resetPos => true
 def vCleanKids : List VNode → Bool
   | [] => true
   | n :: ns => vCleanNode n && vCleanKids ns
@@ -323,6 +326,7 @@ theorem vBlank_of_noText : (n : VNode) → vLeafOnly n = true → vHasText n = f
   | .elem .., h, _ => by simp [vLeafOnly] at h
   | .island .., h, _ => by simp [vLeafOnly] at h
   | .islandChildren _, h, _ => by simp [vLeafOnly] at h
+  | .resetPos, h, _ => by simp [vLeafOnly] at h
   | .seq ks, h1, h2 => by
     simpa [vBlank] using vBlankKids_of_noText ks (by simpa [vLeafOnly] using h1) (by simpa [vHasText] using h2)
   | .vec ks, h1, h2 => by
@@ -384,6 +388,7 @@ theorem vwf_of_shape_node : (n : VNode) → ∀ (anc : List Str), vShapeNode anc
     simpa [vwfNode] using vwf_of_shape_kids ks anc (by simpa [vShapeNode] using hs)
       (by simpa [vCleanNode] using hc) (by simpa [vRawTextFree] using hr)
   | .unit, _, _, _, _ => by simp [vwfNode]
+  | .resetPos, _, hs, _, _ => by simp [vShapeNode] at hs
   | .island c p ks, anc, hs, hc, hr => by
     simp only [vShapeNode, Bool.and_eq_true] at hs
     simp only [vCleanNode, Bool.and_eq_true] at hc
@@ -428,14 +433,24 @@ example : vToHtml [.elem ['p'] [] [.vec [.text ['a'], .text ['<']], .seq [.text 
 example : vwfKids [[]] [.elem ['p'] [] [.vec [.text ['a'], .text ['<','/','p','>']], .seq [.text ['b'], .prim ['7']], .unit, .text ['c']]] = true := by
   decide
 
-/-- correspondence-only: a `char` child `<` or `&` is printed raw; the output is malformed (a parse
-error the standard recovers from) but still denotes the same text — checked by evaluation per case,
-not covered by `C06_view_structure_preserved` (whose hypothesis excludes it) -/
-example : vwfKids [[]] [.elem sDiv [] [.prim ['<'], .text ['b']]] = false ∧
-    vToHtml [.elem sDiv [] [.prim ['<'], .text ['b'], .prim ['&']]] =
-      ['<','d','i','v','>','<','<','!','>','b','<','!','>','&','<','/','d','i','v','>'] ∧
-    parse (vToHtml [.elem sDiv [] [.prim ['<'], .text ['b'], .prim ['&']]]) =
+/-- a `char` child `<` or `&` between marker-separated siblings denotes itself whether it is printed raw
+(the code before hooks/fix-c06-5.patch: malformed HTML the standard recovers from) or escaped (after it) -/
+example : parse (vToHtml [.elem sDiv [] [.prim ['<'], .text ['b'], .prim ['&']]]) =
       some (vStructureOf [.elem sDiv [] [.prim ['<'], .text ['b'], .prim ['&']]]) := by
+  decide
+
+/-- F-C06-7 (primitives printed raw, `primEscaped = false` spelled out as the literal HTML): in the
+in-order stream a pending `<Suspense>` leaves no `<!>` between its last child and the sibling that
+follows, so the `char` `<` and the *escaped* string after it form a tag with an event handler -/
+theorem C06_prim_unescaped_witness :
+    parse ['<','p','>','<','i','m','g',' ','o','n','e','r','r','o','r','=','a',' ','x','=','<','/','p','>'] ≠
+      some [.elem ['p'] [] [.text ['<','i','m','g',' ','o','n','e','r','r','o','r','=','a',' ','x','=']]] ∧
+    vKidsHtml true .firstChild [.seq [.text ['a']], .resetPos, .text ['b']] = ['a','b'] := by
+  decide
+
+/-- with primitives escaped (fix-c06-5) the same shape is inert: no marker is needed for safety -/
+example : parse (['<','p','>'] ++ escapeText ['<'] ++ escapeText ['i','m','g',' ','x','='] ++ ['<','/','p','>']) =
+    some [.elem ['p'] [] [.text ['<','i','m','g',' ','x','=']]] := by
   decide
 
 
